@@ -386,6 +386,61 @@ def check_polygons(res, r, n):
             res.traces += 1
 
 
+def check_equilibrium_wall(res, r):
+    """wallIntersection of a REAL equilibrium object (its own closed_wallarray, built by Equilibrium.__init__ from the input wall), for walls
+    that visit a vertex twice (a zero-thickness fin): crossings against exact arithmetic on the input wall"""
+    import contextlib
+    import io
+    import warnings
+    from fractions import Fraction as F
+    from hypnotoad import tokamak
+    from hypnotoad.core.equilibrium import Point2D
+    from props.c14 import example
+
+    r1, z1, p2, p1 = example("lsn")
+    walls = {"finned floor": [(1.25, -0.625), (1.5, -0.625), (1.5, -0.375), (1.5, -0.625), (1.75, -0.625), (1.75, 0.625), (1.25, 0.625)],
+             "plain": [(1.25, -0.625), (1.75, -0.625), (1.75, 0.625), (1.25, 0.625)],
+             "fin on the roof": [(1.25, -0.625), (1.75, -0.625), (1.75, 0.625), (1.5, 0.625), (1.5, 0.375), (1.5, 0.625), (1.25, 0.625)]}
+    for wname, wall in walls.items():
+        with warnings.catch_warnings(), contextlib.redirect_stdout(io.StringIO()):
+            warnings.simplefilter("ignore")
+            eq = tokamak.TokamakEquilibrium(r1, z1, p2.copy(), p1.copy(), [], wall=list(wall), make_regions=False, settings={})
+        inw = [(float(p.R), float(p.Z)) for p in eq.wall]          # as stored (possibly reversed)
+        closed = inw + [inw[0]]
+        segs = [((1.625, -0.75), (1.625, -0.5)), ((1.625, -0.5625), (1.625, -0.4375)), ((1.375, -0.75), (1.375, -0.5)), ((1.4375, -0.5), (1.5625, -0.5)),
+                ((1.625, 0.5), (1.625, 0.75)), ((1.625, 0.4375), (1.625, 0.5625)), ((1.4375, 0.5), (1.5625, 0.5))]
+        for _ in range(40):
+            a = (1.25 + r.randint(1, 31) / 64, r.choice([-1, 1]) * (0.3 + r.randint(0, 30) / 64))
+            b = (a[0] + r.randint(-12, 12) / 64, a[1] + r.randint(-16, 16) / 64)
+            if a != b:
+                segs.append((a, b))
+        for a, b in segs + [(q, p) for p, q in segs]:
+            fa, fb = (F(a[0]), F(a[1])), (F(b[0]), F(b[1]))
+            rel_ = [seg_relation(fa, fb, (F(c[0]), F(c[1])), (F(d[0]), F(d[1]))) for c, d in zip(closed[:-1], closed[1:])]
+            if "touch" in rel_:
+                continue            # degenerate: not judged
+            pts = {cross_point(fa, fb, (F(c[0]), F(c[1])), (F(d[0]), F(d[1]))) for (c, d), k_ in zip(zip(closed[:-1], closed[1:]), rel_) if k_ == "proper"}
+            res.case(key=("eq-wall", wname, len(pts)), nontrivial=bool(pts))
+            payload = {"wall": wall, "segment": [a, b]}
+            try:
+                with warnings.catch_warnings(), contextlib.redirect_stdout(io.StringIO()):
+                    warnings.simplefilter("ignore")
+                    got = eq.wallIntersection(Point2D(*a), Point2D(*b))
+            except Exception as e:
+                if len(pts) <= 1:
+                    res.violation("eq-wall:raises", "%s wall: wallIntersection raises %s for a segment with %d exact crossing(s)" % (wname, type(e).__name__, len(pts)), payload)
+                continue
+            if len(pts) == 0 and got is not None:
+                res.violation("eq-wall:spurious", "%s wall: segment %s-%s does not meet the input wall but (%.5f, %.5f) is reported" % (wname, a, b, got.R, got.Z), payload)
+            elif len(pts) == 1:
+                p_ = next(iter(pts))
+                if got is None or abs(got.R - float(p_[0])) > 1e-9 or abs(got.Z - float(p_[1])) > 1e-9:
+                    res.violation("eq-wall:missed", "%s wall: segment %s-%s crosses the input wall at (%.5f, %.5f), reported: %s" % (
+                        wname, a, b, float(p_[0]), float(p_[1]), None if got is None else (got.R, got.Z)), payload)
+                else:
+                    res.traces += 1
+
+
 def run(res, tier):
     r = vlib.rng("c20")
     res.rule = ("exhaustive: all two-edge polylines on the 3x3 integer lattice (every 7th in the quick tier) x all lattice segments + "
@@ -401,6 +456,7 @@ def run(res, tier):
         check_find(res, cases[i:i + B], "lattice")
     check_find(res, random_cases(r, 3000 if tier == "quick" else 100000), "random")
     check_wall(res, r, tier)
+    check_equilibrium_wall(res, r)
     check_closest(res, r, 1500 if tier == "quick" else 30000)
     check_polygons(res, r, 1500 if tier == "quick" else 30000)
 
